@@ -80,6 +80,8 @@ def run_worker(pid: str, tier: str, camp_name: str, shard: int, nshards: int, ou
             return  # wall budget: inconclusive, never a violation
         try:
             info = camp.check(case)
+            if isinstance(case, dict) and case.get("fractional_stamps") and "sub_microsecond_stamps" not in info.classes:
+                info.classes.append("sub_microsecond_stamps")  # generator dimension shared by every G-sim user
         except Violation as v:
             if state["fail_t"] is None:
                 state["fail_t"] = time.time()
